@@ -19,11 +19,92 @@ HASHSEEDS_QUICK = [1, 2, 3]
 HASHSEEDS_THOROUGH = [1, 2, 3, 4, 5, 6, 7, 8]
 
 
+def boundary_world(r, target=None):
+    """A world whose exact code divergence or average coverage lies on a two-decimal rounding
+    boundary (x.xx5): any change in floating-point summation order can flip the printed figure."""
+    import itertools
+    from fractions import Fraction
+
+    # (average coverage goes through the builtin sum(), which is compensated and therefore
+    # order-independent on Python >= 3.12; only the hand-written accumulation in divergence() can flip)
+    target = target or "div"
+    nplat = 4 if target == "avg" else r.choice([3, 3, 4])
+    plats = [f"p{i}" if r.random() < 0.6 else f"plat{i}" for i in range(nplat)]
+    macros = ["A", "B", "C", "V"][:nplat]
+    subsets = [frozenset(c) for k in range(1, nplat + 1) for c in itertools.combinations(range(nplat), k)]
+    perms = list(itertools.permutations(range(nplat)))
+    for _ in range(40000 if target == "avg" else 8000):
+        n = {s: r.choice([0, 0, 1, 2, 3, 4, 5, 6, 7, 9]) for s in subsets}
+        blocks = [s for s in subsets if n[s]]
+        if not blocks:
+            continue
+        sm = {s: n[s] for s in blocks}
+        full = frozenset(range(nplat))
+        sm[full] = sm.get(full, 0) + 2 * len(blocks)
+        total = sum(sm.values())
+
+        def dist(a, b):
+            t = sum(c for s, c in sm.items() if a in s or b in s)
+            return Fraction(sum(c for s, c in sm.items() if (a in s) ^ (b in s)), t)
+
+        pairs = list(itertools.combinations(range(nplat), 2))
+        div = sum(dist(a, b) for a, b in pairs) / len(pairs)
+        avg = sum(Fraction(sum(c for s, c in sm.items() if p in s), total) for p in range(nplat)) / nplat * 100
+        if not ((div * 1000) % 10 == 5 if target == "div" else (avg * 1000) % 10 == 5):
+            continue
+        # keep only worlds where the order of a floating-point sum really decides the printed figure
+        # (the documented formulas, evaluated in every platform order)
+        outs = {}
+        for pm in perms:
+            if target == "div":
+                x = 0.0
+                for a, b in itertools.combinations(pm, 2):
+                    t = sum(c for s, c in sm.items() if a in s or b in s)
+                    dd = 0.0
+                    for s, c in sm.items():
+                        if (a in s) ^ (b in s):
+                            dd += c / float(t)
+                    x += dd
+                k = f"{x / float(len(pairs)):.2f}"
+                outs[k] = outs.get(k, 0) + 1
+            else:
+                x = 0.0
+                for p in pm:
+                    x += (sum(c for s, c in sm.items() if p in s) / total) * 100.0
+                k = f"{x / nplat:.2f}"
+                outs[k] = outs.get(k, 0) + 1
+        # ... and where a good share of the orders lands on each side
+        if len(outs) > 1 and min(outs.values()) * 4 >= len(perms):
+            break
+    else:
+        return None
+    items = []
+    for s in blocks:
+        e = None
+        for p in sorted(s):
+            d = ["def", macros[p]]
+            e = d if e is None else ["or", e, d]
+        items.append(["cond", [["if", e, [["code", n[s]]]]]])
+    r.shuffle(items)
+    src = gen.ROOT + "/" + r.choice(["s0.c", "d1/s0.c"])
+    world = {"root": gen.ROOT, "dirs": [gen.ROOT, "proj/db"], "links": [], "excludes": [], "cbi_config": None,
+             "files": {src: {"lang": "c", "items": items}},
+             "platforms": [{"name": plats[i], "db": f"proj/db/{plats[i]}.json",
+                            "entries": [{"file": W.TOP + "/" + src,
+                                         "arguments": ["gcc", "-D" + macros[i], "-c", W.TOP + "/" + src]}]}
+                           for i in range(nplat)]}
+    return world
+
+
 def generate(seed, scratch, nvariants=3, hashseeds=None):
     hashseeds = hashseeds or HASHSEEDS_QUICK
     r = core.rng_for(seed, "gen")
     world, cfg = gen.gen_world(r, "c14")
     rs = core.rng_for(seed, "sched")
+    if rs.random() < 0.2:
+        bw = boundary_world(core.rng_for(seed, "boundary"))
+        if bw is not None:
+            world, cfg = bw, {"profile": "c14-boundary"}
     # engineered ties and duplicates: copies of files (byte-identical -> duplicate classes), unused files
     files = world["files"]
     srcs = sorted(files)
@@ -213,6 +294,7 @@ def execute(case, scratch):
         sizes = [len(k) for k, v in (base["setmap"] or [])]
         pr["tie_in_summary_rows"] = 1 if len(sizes) != len(set(sizes)) else 0
         pr["duplicate_classes"] = len(base["dup_groups"])
+        pr["metric_on_rounding_boundary"] = 1 if (case.get("cfg") or {}).get("profile") == "c14-boundary" else 0
         for vi, v in enumerate(sched["variants"]):
             W.cleanup(top)
             os.makedirs(top)
@@ -292,7 +374,8 @@ RULE = ("one run = one generated multi-directory world (2..5 platforms, engineer
         "enumeration order by keyed permutation or native order after permuted file creation, [platform.*] table "
         "permutation); every schedule runs codebasin (summary, duplicates, clustering in 1/3 of runs), cbi-tree with and "
         "without --prune, cbi-cov compute, and the in-process API; ~4% of runs also go through the real python -m codebasin; "
-        "non-trivial = at least one variant differed from the baseline in hash seed, enumeration order or table order; "
+        "15% of the worlds are constructed so that the exact code divergence or average coverage lies on a two-decimal "
+        "rounding boundary; non-trivial = at least one variant differed from the baseline in hash seed, enumeration order or table order; "
         "distinct = distinct sha256(world, schedule)")
 ASSUMPTIONS = [
     "observation = what is printed/exported (row order and labels included); dropped as run-specific: 'Log file created at', 'Dendrogram written to' (file name legitimately carries platforms in table order)",
@@ -305,6 +388,6 @@ ASSUMPTIONS = [
 def dead_probes(tier, cov):
     dead = [k for k in ("hash_seed", "scandir_order", "creation_order", "platform_order")
             if cov["faults_fired"].get(k, 0) == 0]
-    dead += [k for k in ("tie_in_summary_rows", "duplicate_classes", "distinct_set_orders")
+    dead += [k for k in ("tie_in_summary_rows", "duplicate_classes", "distinct_set_orders", "metric_on_rounding_boundary")
              if cov["probes"].get(k, 0) == 0]
     return dead if cov["evaluations"] >= 100 else []
